@@ -23,7 +23,7 @@ with kanix.Scratch(repo, "ktest-" + unit) as sc:
     if "--playback" in sys.argv:
         for h in hs:
             if kanix.classify(r["results"][h["name"]], h)[0] == "violation":
-                pb = kanix.playback(sc.ws, u["package"], u["flags"], h["name"], "/verif/build/logs")
+                pb = kanix.playback(sc.ws, u["package"], u["flags"], h["name"], "/verif/build/logs", u["modfile"])
                 print(json.dumps({k: v for k, v in pb.items() if k != "test_source"}, indent=1)[:3000])
                 break
     if "--keep" in sys.argv:
